@@ -73,7 +73,7 @@ let classes (text : n list) : string =
   let (ts, e) = spec_tokens text in
   let l = [] in
   let l = if e = SEmptyKey then "ek" :: l else l in
-  let l = if List.length ts > 16 then "cap" :: l else l in
+  let l = if List.length ts > 16 || (List.length ts = 16 && e <> SEndOk) then "cap" :: l else l in
   let l = if bs_sensitive SItemStart text then "bs" :: l else l in
   let l = if List.exists (fun (k, _) -> not (plain_arg_key k)) ts then "odd" :: l else l in
   let l = if List.exists (fun (k, v) -> (k = s_sender || k = s_destination || k = s_arg0namespace) && f2_value v) ts then "f2" :: l else l in
@@ -91,7 +91,14 @@ let do_step (e : event) : string =
   (match step !limit !world e with
    | None -> "F"
    | Some (w, o) ->
+      (* a disconnect also reports how many rules of OTHER connections the matchmaker dropped (x=<n>) *)
+      let extra = (match e with
+          | EvDisconnect c ->
+              let own = List.length (List.filter (fun r -> r.r_owner = c) !world.w_mm) in
+              Printf.sprintf " x=%d" (List.length !world.w_mm - List.length w.w_mm - own)
+          | _ -> "") in
       world := w;
+      (fun s -> s ^ extra)
       (match o with
        | OSignal l -> "S " ^ conns l
        | OReply r -> "R " ^ reply_s r
